@@ -275,7 +275,9 @@ def main():
 
 
 def decide(pid, P, tier, seed, sc, ov, r, fn_ranges, lt, t0, replay):
-    ev_path = os.path.join(VERIF, "evidence", f"{pid}.json")
+    # evidence is only ever written for /repo itself; development runs against another tree (VERIF_REPO) write elsewhere
+    ev_dir = os.path.join(VERIF, "evidence") if os.path.realpath(engine.REPO) == "/repo" else os.path.join(os.environ.get("VERIF_TMP") or "/tmp", "xsg-evidence-dev")
+    ev_path = os.path.join(ev_dir, f"{pid}.json")
     os.makedirs(os.path.dirname(ev_path), exist_ok=True)
     notes = []
     status = "proved"          # proved | own_failed | undecided
